@@ -70,6 +70,7 @@ type Fact struct {
 	Units    string   `json:"units"`
 	Type     string   `json:"type"`
 	Iff      []string `json:"iff"`
+	Dv       []string `json:"dv"`              // DefaultValues()
 	Opcfg    bool     `json:"opcfg,omitempty"` // specification side only: an explicit config applies inside an rpc / action / notification
 }
 type flatmap map[string][]Fact
@@ -320,6 +321,7 @@ func Flatten(root *yang.Entry) map[string]*Observed {
 			if c.Type != nil {
 				o.Type = c.Type.Name
 			}
+			o.Dv = append([]string{}, c.DefaultValues()...)
 			o.Iff = []string{}
 			for _, x := range c.Extra["if-feature"] {
 				if v, ok := x.(*yang.Value); ok && v != nil {
